@@ -107,6 +107,74 @@ impl<'a> Verdict<'a> {
             Verdict::V2(r) => r.is_complete(),
         }
     }
+    /// (is_complete, is_incomplete) as reported by every `PartialResult` impl involved in this
+    /// verdict: the tagged result, the `Result`, the error value and, for byte errors, the
+    /// wrapped text error.
+    pub fn flag_levels(&self) -> Vec<(&'static str, bool, bool)> {
+        fn e1(e: &v1::ParseError, out: &mut Vec<(&'static str, bool, bool)>) {
+            out.push(("v1::ParseError", e.is_complete(), e.is_incomplete()));
+        }
+        fn e1b(e: &v1::BinaryParseError, out: &mut Vec<(&'static str, bool, bool)>) {
+            out.push(("v1::BinaryParseError", e.is_complete(), e.is_incomplete()));
+            if let v1::BinaryParseError::Parse(p) = e {
+                e1(p, out);
+            }
+        }
+        fn e2(e: &v2::ParseError, out: &mut Vec<(&'static str, bool, bool)>) {
+            out.push(("v2::ParseError", e.is_complete(), e.is_incomplete()));
+        }
+        let mut out = Vec::new();
+        match self {
+            Verdict::Auto(hr) => {
+                out.push(("HeaderResult", hr.is_complete(), hr.is_incomplete()));
+                match hr {
+                    HeaderResult::V1(r) => {
+                        out.push(("Result", r.is_complete(), r.is_incomplete()));
+                        if let Err(e) = r {
+                            e1b(e, &mut out);
+                        }
+                    }
+                    HeaderResult::V2(r) => {
+                        out.push(("Result", r.is_complete(), r.is_incomplete()));
+                        if let Err(e) = r {
+                            e2(e, &mut out);
+                        }
+                    }
+                }
+            }
+            Verdict::V1B(r) => {
+                out.push(("Result", r.is_complete(), r.is_incomplete()));
+                if let Err(e) = r {
+                    e1b(e, &mut out);
+                }
+            }
+            Verdict::V1T(r) => {
+                out.push(("Result", r.is_complete(), r.is_incomplete()));
+                if let Err(e) = r {
+                    e1(e, &mut out);
+                }
+            }
+            Verdict::V1FH(r) => {
+                out.push(("Result", r.is_complete(), r.is_incomplete()));
+                if let Err(e) = r {
+                    e1(e, &mut out);
+                }
+            }
+            Verdict::V1FA(r) => {
+                out.push(("Result", r.is_complete(), r.is_incomplete()));
+                if let Err(e) = r {
+                    e1(e, &mut out);
+                }
+            }
+            Verdict::V2(r) => {
+                out.push(("Result", r.is_complete(), r.is_incomplete()));
+                if let Err(e) = r {
+                    e2(e, &mut out);
+                }
+            }
+        }
+        out
+    }
     /// Number of bytes the caller must remove from its buffer (None if not Ok, or
     /// for `FromStr<Addresses>` which does not report the header text).
     pub fn header_len(&self) -> Option<usize> {
